@@ -158,6 +158,7 @@ func (e *evRunner) exec(table string, cards []string) {
 	}
 	k := specOf(cards)
 	e.o.Count("ev.cat." + catSymbols[k.cat])
+	e.o.Mark("C03", fmt.Sprint(table, k.cat, k.tb))
 	if int(ps.Combination) != k.cat {
 		e.o.BeginHistory()
 		e.o.hist = []string{in}
@@ -240,7 +241,6 @@ func runEv(dir string, seed uint64, tier string, scale int) {
 			e.exec("std", permute(e.rng, h))
 		}
 	})
-	o.Mark("C03", "all")
 	o.Sample("ev std SA SK SQ SJ ST")
 	o.Close(dir, "ev", seed)
 }
